@@ -39,7 +39,7 @@ def _lock():
 def build_harness():
     h = os.path.join(VERIF, "harness")
     shutil.copyfile(os.path.join(REPO, "go.sum"), os.path.join(h, "go.sum"))
-    for name in ("worker", "tabledump", "cmdtable", "pubsub", "crash", "snapcrash"):
+    for name in ("worker", "tabledump", "cmdtable", "pubsub", "crash", "snapcrash", "wire"):
         if not os.path.isdir(os.path.join(h, name)):
             continue
         p = sh(["go", "build", "-tags", "verif", "-o", os.path.join(BUILD, name), "./" + name],
